@@ -484,6 +484,8 @@ def get_attribute(I, o, name, default=_NOCONST):
     elif isinstance(o, VFunc):
         if name == "__name__":
             return VStr(o.name)
+    if isinstance(o, VClass) and name == "__name__":
+        return getattr(o, "unknown_name", None) or VStr(o.name)
     if default is not _NOCONST:
         return default
     if I.spec:
@@ -1269,6 +1271,13 @@ def bi_type(I, args, kw):
         ci = I.class_of(v)
         if ci:
             return VClass(ci.name, ci.node, ci.module)
+    if isinstance(v, VExc):
+        # class of a caught exception; for an exception raised by a contract/trusted model (`any_subclass`) the
+        # concrete class is unknown: its __name__ is an arbitrary string
+        c = VClass(v.cls, exc_base=EXC_PARENT.get(v.cls) or "BaseException")
+        if v.any_subclass:
+            c.unknown_name = VStr(I.path.fresh("exc_class_name", z3.StringSort()))
+        return c
     raise Unsupported("type()")
 
 
